@@ -72,7 +72,7 @@ func C05_Pause()         { focus = "C05"; sceneCtxMsg(opPause, cmOne) }
 func C05_Start()         { focus = "C05"; sceneCtxMsg(opStart, cmOne) }
 func C05_Kill()          { focus = "C05"; sceneCtxMsg(opKill, cmOne) }
 func C05_Update()        { focus = "C05"; sceneCtxMsg(opUpdate, cmOne) }
-func C05_Respond()       { focus = "C05"; sceneRespond(rsOne) }
+func C05_Respond()       { focus = "C05"; sceneRespond(rsWide) }
 func C05_Withdraw()      { focus = "C05"; sceneWithdraw(wdQuick) }
 func C05_SetWithdraw()   { focus = "C05"; sceneSetWithdraw() }
 func C05_NewBatch()      { focus = "C05"; sceneNewBatch(nbOne) }
@@ -275,3 +275,26 @@ func C20T_DeterminismExpiry() {
 	focus = "C20"
 	sceneDeterminism(ReqOpts{MaxProv: 2, OnlyState: -1, NoSlash: true, OneOutput: true}, true)
 }
+
+// fractional discounted prices (rounding) matter to escrow and settlement too
+func C01_NewBatchByVolume() { focus = "C01"; sceneNewBatch(nbByVol) }
+func C02_NewBatchByVolume() { focus = "C02"; sceneNewBatch(nbByVol) }
+func C17_Bind()             { focus = "C17"; sceneBindingMsg(opBind, bmPlain) }
+
+// both promotion kinds in effect, with the two discounts fixed to concrete values (one of three pairs) so that
+// the fee stays linear in the symbolic base price
+func C07_NewBatchBothPromotions() {
+	focus = "C07"
+	sceneNewBatch(ReqOpts{MaxProv: 1, OnlyState: 0, NT: 1, NV: 1, AllBound: true, FixDiscounts: true})
+}
+
+func C02_RespondModule() { focus = "C02"; sceneRespond(rsMod) }
+func C01_RespondModule() { focus = "C01"; sceneRespond(rsMod) }
+func C02_DoubleSlash()   { focus = "C02"; sceneDoubleSlash() }
+func C01_DoubleSlash()   { focus = "C01"; sceneDoubleSlash() }
+
+func C16_RespondModule() { focus = "C16"; sceneRespond(rsMod) }
+func C08_RespondModule() { focus = "C08"; sceneRespond(rsMod) }
+
+// a provider address longer than 20 bytes (stateless validation admits it)
+func C13_WithdrawLong() { focus = "C13"; sceneWithdraw(WdOpts{LenP0: 21, LenP1: 20}) }
